@@ -12,9 +12,10 @@ ALL = ['C%02d' % i for i in range(1, 19)]
 
 # theorems (fully qualified Lean names) that decide each property on the model
 THEOREMS = {p: [] for p in ALL + ['TIE']}
-THEOREMS['C01'] = ['FB.replay_sound', 'FB.replay_simple_sound', 'FB.faithful_of_hash', 'FB.C01_subbuild_hit_transparent',
-                   'FB.View.sim_answer', 'FB.run_keeps_claimed']
-THEOREMS['C05'] = ['FB.replay_sound', 'FB.C13_read_replay']
+THEOREMS['C01'] = ['FB.buildGo_refines', 'FB.first_build_refines', 'FB.run_refines', 'FB.replay_sound', 'FB.replay_simple_sound',
+                   'FB.faithful_of_hash', 'FB.C01_subbuild_hit_transparent', 'FB.View.sim_answer', 'FB.run_keeps_claimed',
+                   'FB.run_pending', 'FB.sim_bfFinish', 'FB.CacheOK.empty']
+THEOREMS['C05'] = ['FB.run_refines', 'FB.replay_sound', 'FB.C13_read_replay']
 THEOREMS['C06'] = ['FB.C06_changed_invalidates', 'FB.C06_changed_invalidatesL', 'FB.C06_lookup_tests_version',
                    'FB.C06_equal_versions_pass']
 THEOREMS['C08'] = ['FB.C08_dup_file_rejected', 'FB.C08_dup_file_no_effect', 'FB.C08_dup_sub_no_effect',
